@@ -2464,6 +2464,14 @@ func unprotectedWriteToFragment(f *fragment, bm *roaring.Bitmap) (n int64, err e
 // RecalculateCache rebuilds the cache regardless of invalidate time delay.
 func (f *fragment) RecalculateCache() {
 	f.mu.Lock()
+	// Rows that were evicted or trimmed at some point are not in the cache
+	// any more: re-sorting what is left would never bring them back, even
+	// when everything fits now. Rebuild from the rows in storage.
+	if f.CacheType != CacheTypeNone {
+		for _, id := range f.unprotectedRows(0) {
+			f.cache.BulkAdd(id, f.storage.CountRange(id*ShardWidth, (id+1)*ShardWidth))
+		}
+	}
 	f.cache.Recalculate()
 	f.mu.Unlock()
 }
